@@ -8,12 +8,12 @@ from . import small as SM
 CONFIG = {
     'C01': dict(streams=[('td_class', 480), ('td_wf', 880), ('td_coarse', 320), ('fail_wf', 200), ('panic', 240)], keep='om'),
     'C02': dict(streams=[('td_exact', 880), ('td_wf', 480)], keep='ov'),
-    'C03': dict(streams=[('bu_wf', 880), ('mixed_wf', 320), ('newreq', 160), ('fail_bu', 200)], keep='ovm'),
+    'C03': dict(streams=[('bu_wf', 880), ('mixed_wf', 320), ('newreq', 160), ('fail_bu', 200), ('mid_session', 160)], keep='ovm'),
     'C04': dict(streams=[('bu_wf', 1120), ('mixed_wf', 160), ('newreq', 160), ('abort_bu', 240)], keep='ov'),
     'C05': dict(streams=[('inj_hidden', 1200), ('siblings', 240), ('td_wf', 160), ('same_session', 80)], keep='om'),
-    'C06': dict(streams=[('inj_overlap', 1200), ('td_wf', 160), ('same_session', 80)], keep='om'),
-    'C07': dict(streams=[('inj_cycle', 1040), ('reorder_cycle', 240)], keep='ov'),
-    'C08': dict(streams=[('td_wf', 560), ('bu_wf', 320), ('multi', 80), ('panic', 240), ('abort_bu', 120)], keep='od'),
+    'C06': dict(streams=[('inj_overlap', 1200), ('td_wf', 160), ('same_session', 80), ('newreq', 160)], keep='om'),
+    'C07': dict(streams=[('inj_cycle', 1040), ('reorder_cycle', 240), ('newreq', 160)], keep='ov'),
+    'C08': dict(streams=[('td_wf', 560), ('bu_wf', 320), ('multi', 80), ('panic', 240), ('abort_bu', 120), ('newreq', 160)], keep='od'),
     'C09': dict(streams=[('td_coarse', 880), ('bu_wf', 320), ('multi', 80)], keep='dv', extra='stampsrc'),
     'C16': dict(streams=[('td_wf', 240), ('bu_wf', 240), ('mixed_wf', 120), ('newreq', 160)], keep='oevdm', two_process=True),
     'C17': dict(streams=[('td_wf', 480), ('bu_wf', 480), ('fail_wf', 240), ('panic', 160), ('failstamp', 160)], keep='v', extra='tracker'),
@@ -46,6 +46,10 @@ def make_case(rng, stream, big=False):
     if stream == 'same_session':
         p, steps, meta = P.gen_same_session_program(rng)
         m = norm_meta({}, 'td'); m['impl_only'] = True
+        return p, steps, m
+    if stream == 'mid_session':
+        p, steps, meta = P.gen_mid_session_program(rng)
+        m = norm_meta(meta, 'bu'); m['impl_only'] = True
         return p, steps, m
     if stream == 'multi':
         p = P.gen_multi_program(rng)
@@ -364,7 +368,10 @@ ALSO = {'C01': {('C18', 'stale-output'), ('C18', 'stale-resource'),
         # task for no reason a from-scratch build would have (the "only if one of ITS dependencies ..." clause)
         'C02': {('C08', 'recorded-deps-differ')},
         # the bottom-up build must leave every known task up to date also when a checker fails while scheduling
-        'C03': {('C18', 'stale-after-erring-bottom-up')}}
+        'C03': {('C18', 'stale-after-erring-bottom-up')},
+        # "every dependency it declared can cause it to be re-executed or scheduled": a task left stale by a bottom-up build that was
+        # told about the change of a resource the task depends on
+        'C08': {('C03', 'stale-after-bottom-up')}}
 def mine(prop, pr, sig):
     return pr == prop or (pr, sig) in ALSO.get(prop, ())
 
